@@ -166,6 +166,7 @@ class SurfaceSubdivision(Logger):
             pC = (self.mesh.vertices[A] + self.mesh.vertices[B])/2
             newMeshData.vertices.append(pC)
             half[keyify(A,B)]=C
+            newMeshData.edges += [keyify(A,C), keyify(B,C)]
 
         bary = dict()
         for iF,F in enumerate(self.mesh.faces):
@@ -186,6 +187,7 @@ class SurfaceSubdivision(Logger):
                 [C, mCA, S, mBC],
             ]:
                 newMeshData.faces.append(new_face)
+            newMeshData.edges += [keyify(mAB,S), keyify(mBC,S), keyify(mCA,S)]
         self.mesh = newMeshData
 
 @allowed_mesh_types(SurfaceMesh)
